@@ -59,6 +59,7 @@ type c01issThread struct {
 	Email    string `json:"email,omitempty"`                 // acct: account e-mail address
 	Store    int    `json:"store,omitempty"`                 // index of the storage this instance uses (cases with several separate storages in one process)
 	Decliner bool   `json:"first_issuer_declines,omitempty"` // Issuers = [an issuer that always declines, the shared issuer double]
+	NilMeta  bool   `json:"issuer_without_metadata,omitempty"` // the issuer double returns IssuedCertificate.Metadata == nil (custom / fallback issuer)
 }
 
 type c01issSeed struct {
@@ -269,6 +270,9 @@ func (i *c01issIssuer) Issue(ctx context.Context, csr *x509.CertificateRequest) 
 	if err := ctx.Err(); err != nil {
 		return nil, err
 	}
+	if i.rt.spec.NilMeta {
+		return &certmagic.IssuedCertificate{Certificate: chain}, nil
+	}
 	return &certmagic.IssuedCertificate{Certificate: chain, Metadata: map[string]any{"issuer_double": "dbl"}}, nil
 }
 
@@ -327,6 +331,18 @@ func (e *c01issEnv) seed() error {
 		}
 		cid, kid := 1000+i, 500+i
 		meta, _ := json.MarshalIndent(certmagic.CertificateResource{SANs: []string{ascii}, IssuerData: json.RawMessage(`{"issuer_double":"dbl"}`)}, "", "\t")
+		if s.Kind == "aridue" {
+			// the leaf is fresh, but the stored ACME metadata carries renewal information whose selected time has
+			// passed: due because of ARI alone (ARI is enabled by default)
+			ra := time.Now().Add(6 * time.Hour)
+			ri := acme.RenewalInfo{RetryAfter: &ra}
+			ri.SuggestedWindow.Start = time.Now().Add(-48 * time.Hour)
+			ri.SuggestedWindow.End = time.Now().Add(-24 * time.Hour)
+			ri.SelectedTime = time.Now().Add(-36 * time.Hour)
+			idata, _ := json.Marshal(acme.Certificate{RenewalInfo: &ri})
+			meta, _ = json.MarshalIndent(certmagic.CertificateResource{SANs: []string{ascii}, IssuerData: idata}, "", "\t")
+			due = 1
+		}
 		kk, kc, km := e.siteKeys(nm)
 		putK, putC, putM := true, true, true
 		switch s.Kind {
